@@ -16,6 +16,7 @@ import YashModel.Kernel.Pipe
 import YashModel.Kernel.Step
 import YashModel.Kernel.Signal
 import YashModel.Kernel.SigStep
+import YashModel.Kernel.Fork
 open YashModel YashModel.Kernel YashModel.Proto
 
 def octDigits : Nat → Nat → List Char
@@ -155,6 +156,10 @@ def showFds (k : K) : String :=
     | _, _ => none
   " ".intercalate fds
 
+/-- the descriptor table up to a fixed bound (the limit in the case header: `setlim` may have lowered the
+    process's own limit below descriptors that are still open) -/
+def showFdsUpTo (k : K) (n : Nat) : String := showFds { k with limit := n }
+
 def showFinal (k : K) : String :=
   s!"T {showTree k.tree} | F {showFds k} | cwd={showPath k.cwd} umask={toOct k.umask}"
 
@@ -254,8 +259,84 @@ def runLine (line : String) : String :=
 
 end SigDrv
 
+
+/-! ## fork / wait cases: `X <class> lim=<N>; op; fork[op, op, …]; spawn[…]; wz; kz <SIG|0>; …` -/
+
+namespace XDrv
+open YashModel.Kernel.Signal
+
+def parseCOp (t : String) : Option COp :=
+  match words t with
+  | ["exit", n] => n.toNat?.map .exit
+  | ["setlim", n] => n.toNat?.map .setlim
+  | _ =>
+    match parseOp t with
+    | some op => some (.file op)
+    | none =>
+      match SigDrv.parseSOp t with
+      | .bad => none
+      | op => some (.sig op)
+
+def bodyOf (t : String) (pre : String) : List COp :=
+  let body := ((t.drop pre.length).toString.splitOn "]").headD ""
+  ((splitTrim body ",").filter (· ≠ "")).filterMap parseCOp
+
+def parseXOp (t : String) : Option XOp :=
+  if t.startsWith "fork[" then some (.fork (bodyOf t "fork["))
+  else if t.startsWith "spawn[" then some (.spawn (bodyOf t "spawn["))
+  else match words t with
+    | ["wz"] => some .waitz
+    | ["kz", s] => if s = "0" then some (.killz none) else (SigDrv.parseSig s).map (fun x => .killz (some x))
+    | _ => (parseCOp t).map .c
+
+def showCObs : COp → CObs → String
+  | .file op, .file o => showObs op o
+  | _, .sig o => SigDrv.showSObs o
+  | _, .ok => "ok"
+  | _, _ => "?"
+
+def showTail (x : XProc) : String :=
+  s!"cwd={showPath x.k.cwd} umask={toOct x.k.umask} lim={x.k.limit}"
+
+def showReport (bound : Nat) (body : List COp) (r : ChildReport) : String :=
+  let rec go : List COp → List CObs → List String
+    | op :: ops, o :: os => showCObs op o :: go ops os
+    | _, _ => []
+  "{" ++ " ".intercalate (go body r.obs) ++ s!" | F {showFdsUpTo r.final.k bound} | {showTail r.final}" ++ "}"
+
+def showXObs (bound : Nat) (op : XOp) : XObs → String
+  | .c (some o) => (match op with | .c cop => showCObs cop o | _ => "?")
+  | .c none => "-"
+  | .forked r st => (match op with | .fork body => showReport bound body r | _ => "?") ++ SigDrv.showStatus st
+  | .spawned r => (match op with | .spawn body => showReport bound body r | _ => "?")
+  | .status st => SigDrv.showStatus st
+  | .ok => "ok"
+  | .echild => "ECHILD"
+  | .esrch => "ESRCH"
+  | .unknown => "?"
+
+def runLine (line : String) : String :=
+  match splitTrim line ";" with
+  | [] => "?"
+  | hd :: ops =>
+    let limit : Nat := match (words hd).filterMap (fun w => if w.startsWith "lim=" then (w.drop 4).toString.toNat? else none) with
+      | n :: _ => n
+      | [] => 64
+    let parsed := (ops.filter (· ≠ "")).map parseXOp
+    let (obs, s) := xrun { me := { k := initK limit, p := Proc.init }, child := none } (parsed.filterMap id)
+    let rec render : List (Option XOp) → List XObs → List String
+      | [], _ => []
+      | none :: r, os => "?" :: render r os
+      | some op :: r, o :: os => showXObs limit op o :: render r os
+      | some _ :: r, [] => "?" :: render r []
+    " ".intercalate (render parsed obs) ++
+      s!" | T {showTree s.me.k.tree} | F {showFdsUpTo s.me.k limit} | {showTail s.me} | mask={SigDrv.showSet s.me.p.mask} pend={SigDrv.showSet s.me.p.pending}"
+
+end XDrv
+
 def runLine (line : String) : String :=
   if line.startsWith "S " then runSeq line ++ "\t-"
+  else if line.startsWith "X " then XDrv.runLine line ++ "\t-"
   else if line.startsWith "P " then SigDrv.runLine line ++ "\t-"
   else if line.startsWith "H " then
     match line.splitOn " real=" with
